@@ -35,7 +35,7 @@ ASSUMPTIONS = [
     'starts beyond depth 32 would pass',
 ]
 
-NAMES = ['A%d' % i for i in range(1, 13)]
+NAMES = ['A%d' % i for i in range(1, 80)]
 
 
 def _cycle_case(n_prefix, length, entry, via):
@@ -65,6 +65,17 @@ def enumerate_cases(tier, shard=0, nshards=1):
             for entry in range(0, prefix + length):
                 for via in ('ref', 'range'):
                     out.append(_cycle_case(prefix, length, entry, via))
+    # long cycles / long prefixes (well inside Python's recursion limit)
+    for length, prefix in ((10, 0), (26, 3), (27, 0), (40, 10), (1, 60),
+                           (60, 0), (2, 50)):
+        for entry in (0, prefix, prefix + length - 1):
+            for via in ('ref', 'range'):
+                out.append(_cycle_case(prefix, length, entry, via))
+    # long acyclic chains: must return the value, never a cycle report
+    for n in (30, 60):
+        cells = {NAMES[i]: [['ref', NAMES[i + 1]]] for i in range(n)}
+        out.append({'k': 'graph', 'cells': cells,
+                    'consts': {NAMES[n]: 5}, 'eval': NAMES[0], 'n': n + 1})
     # sharing without cycles
     for width in (2, 3, 4):
         for depth in range(1, 7):
@@ -415,6 +426,9 @@ def judge(case):
         res.fail('compile-exception:%s:%s' % (t[1], t[2]), 'model', t, d)
         return res
     ncells = len(set(cells) | set(consts)) + 12
+    if ncells > 60:
+        import sys
+        sys.setrecursionlimit(max(sys.getrecursionlimit(), 20000))
     outcome, detail, st = run_limited(
         ev, _full(start), 4 * sim_calls + 16, ncells + 2)
     has_range = any(r[0] == 'range' for refs in cells.values() for r in refs)
